@@ -83,7 +83,7 @@ def run_checks(repo, names, tier, scratch, seed):
         else:
             rec['evaluations'] = int(m.group(1))
             rec['accepted_payloads'] = int(m.group(2))
-            cases = re.findall(r'^VIOLATION-CASE (\S+) (\S+) (\S*) :: (.*)$', p.stdout, re.M)
+            cases = re.findall(r'^VIOLATION-CASE ([a-z]+)\|([0-9a-f]*)\|([0-9a-f,]*) :: (.*)$', p.stdout, re.M)
             if int(m.group(3)) == 0 and p.returncode == 0:
                 rec['status'] = 'verified'
             else:
